@@ -9,6 +9,7 @@ PRICES = {'a': [100.0, 105.0, 95.0, 101.5], 'b': [37.5, 33.0, 41.25, 40.0], 'c':
 PRICES_Z = {'a': [100.0, 105.0, 95.0, 101.5], 'b': [37.5, 0.0, 0.0, 40.0], 'c': [10.0, 0.0, 0.0, 9.75]}
 MULT = {'a': 1.0, 'b': 10.0, 'c': 0.5}
 SPREAD = {'a': 0.5, 'b': 0.25, 'c': 0.125}
+PRICES_ZA = {'a': [100.0, 0.0, 0.0, 101.5], 'b': [37.5, 33.0, 41.25, 40.0], 'c': [10.0, 11.0, 12.5, 9.75]}
 COUPON = [0.5, 0.25, 0.0, 0.75]
 COST_LONG = [0.125, 0.0625, 0.125, 0.0]
 COST_SHORT = [0.0625, 0.25, 0.0, 0.125]
@@ -42,6 +43,10 @@ def build(run, cfg):
     elif shape == 'S4':
         tickers = ['a']
         root = C.StrategyBase('root', [C.StrategyBase('sub1', [sec('a')]), C.StrategyBase('sub2', [sec('a')])])
+    elif shape == 'F1':                        # fixed-income root: par-notional security, hedge security, plain security
+        tickers = ['a', 'b', 'c']
+        root = C.FixedIncomeStrategy('root', children=[C.FixedIncomeSecurity('a', multiplier=mult['a']), C.HedgeSecurity('b', multiplier=mult['b']),
+                                                      C.Security('c', multiplier=mult['c'])])
     elif shape == 'SC':                        # a coupon-paying security and a plain one under a market-value root
         tickers = ['a', 'b']
         root = C.StrategyBase('root', [C.CouponPayingSecurity('a', multiplier=mult['a']), sec('b')])
@@ -52,7 +57,7 @@ def build(run, cfg):
         root = C.StrategyBase('root', [mid, sec('c')])
     else:
         raise ValueError(shape)
-    PG = PRICES_Z if cfg.get('pgrid') == 'zero' else PRICES
+    PG = PRICES_Z if cfg.get('pgrid') == 'zero' else (PRICES_ZA if cfg.get('pgrid') == 'zeroa' else PRICES)
     data = frame(run, dts, tickers, lambda i, c: PG[c][i])
     root.use_integer_positions(bool(cfg['int']))
     w = World()
